@@ -5,6 +5,7 @@ package main
 import (
 	"bytes"
 	"context"
+	"encoding/json"
 	"os"
 	"os/exec"
 	"path/filepath"
@@ -93,4 +94,28 @@ func runShell(dir, script string) int {
 		return -2
 	}
 	return 0
+}
+
+// runPty runs a command under tools/ptyrun.py (a pseudo-terminal as controlling tty),
+// typing the responses when the prompts appear; returns the exit status (-9 on harness trouble).
+func runPty(dir string, responses [][2]string, argv ...string) int {
+	type pair = [2]string
+	js, _ := json.Marshal(responses)
+	args := append([]string{filepath.Join(verifDir(), "tools", "ptyrun.py"), dir, string(js), "--"}, argv...)
+	cmd := exec.Command("/usr/bin/python3", args...)
+	cmd.Env = []string{"PATH=/usr/bin:/bin", "HOME=/nonexistent", "TERM=dumb"}
+	out, err := cmd.CombinedOutput()
+	if err != nil {
+		if os.Getenv("VERIF_DEBUG") != "" {
+			println("ptyrun failed:", err.Error(), string(out))
+		}
+		return -9
+	}
+	var r struct {
+		Exit int `json:"exit"`
+	}
+	if json.Unmarshal(bytes.TrimSpace(out), &r) != nil {
+		return -9
+	}
+	return r.Exit
 }
